@@ -587,9 +587,23 @@ pub fn universe(r: &mut Rng, rix: i64, table_frames: &[u64], min_frame: u64) -> 
         }
         v
     };
-    let i3 = pick_n(r, 2);
-    let i2 = pick_n(r, 3);
-    let i1 = pick_n(r, 3);
+    let mut i3 = pick_n(r, 2);
+    let mut i2 = pick_n(r, 3);
+    let mut i1 = pick_n(r, 3);
+    if rix >= 0 {
+        // lower-level indices equal to the recursive index are ordinary slots: make sure some
+        // behaviours use them (only the level-4 slot of that index is special)
+        let rx = rix as u64;
+        if r.chance(1, 2) && !i3.contains(&rx) {
+            i3[0] = rx;
+        }
+        if r.chance(1, 2) && !i2.contains(&rx) {
+            i2[0] = rx;
+        }
+        if r.chance(1, 3) && !i1.contains(&rx) {
+            i1[0] = rx;
+        }
+    }
     let mut data: [Vec<u64>; 3] = [Vec::new(), Vec::new(), Vec::new()];
     for s in 0..3usize {
         let size = 1u64 << (12 + 9 * s);
